@@ -307,6 +307,7 @@ type conn struct {
 	fail        bool
 	acc         bool
 	faultAt     int
+	netClosed   bool
 	offer       chan struct{}
 	cancelOffer chan struct{}
 }
@@ -428,6 +429,12 @@ func run(t *testing.T, sc Scenario) engine.Verdict {
 							kind := "err"
 							if st.K%2 == 0 {
 								kind = "wrapeof" // a transport failure that wraps io.EOF is still a failure
+							}
+							if st.K%3 == 0 {
+								// the connection was closed underneath the server (net.ErrClosed from
+								// Recv): like the client going away, a clean end - status Closed, no error
+								kind = "netclosed"
+								c.netClosed = true
 							}
 							faults = []sim.Fault{{Op: "recv", At: st.RecvFailAt, Kind: kind}}
 							c.faultAt = st.RecvFailAt
@@ -725,6 +732,12 @@ func run(t *testing.T, sc Scenario) engine.Verdict {
 				if e.kind == "connect" && e.k == cid {
 					accSeq = e.seq
 				}
+			}
+			if c.netClosed {
+				if (cancelSeq < 0 || accSeq < cancelSeq) && !racing(sc, evs, accSeq, cancelSeq) && (f.flag != "closed" || f.err != "") {
+					return fail("finish-status", "the first Recv of connection #%d reported a closed connection (net.ErrClosed), but its service saw status flags=%q err=%q, want closed without error", cid, f.flag, f.err)
+				}
+				break
 			}
 			if (cancelSeq < 0 || accSeq < cancelSeq) && !racing(sc, evs, accSeq, cancelSeq) && !strings.Contains(f.err, "injected") {
 				return fail("finish-status", "connection #%d failed in its first Recv, but its service saw status flags=%q err=%q", cid, f.flag, f.err)
